@@ -117,6 +117,7 @@ fn dispatch(st: &mut State, line: &str) -> String {
         "aeadopen" => misc::cmd_aeadopen(rest),
         "stats" => misc::cmd_stats(rest),
         "merge" => misc::cmd_merge(rest),
+        "squeue" => misc::cmd_squeue(rest),
         "grease" => misc::cmd_grease(rest),
         "serve" => server::cmd_serve(st, rest),
         "respond" => server::cmd_respond(rest),
